@@ -10,7 +10,9 @@ pub mod c02;
 pub mod c03;
 pub mod c04;
 pub mod c06;
+pub mod c07;
 pub mod c10;
+pub mod c11;
 pub mod c05;
 
 pub fn run(prop: &str, thorough: bool) -> Option<Report> {
@@ -22,7 +24,11 @@ pub fn run(prop: &str, thorough: bool) -> Option<Report> {
         "C04" => c04::run(&mut rep, thorough),
         "C05" => c05::run(&mut rep, thorough),
         "C06" => c06::run(&mut rep, thorough),
+        "C07" => c07::run_c07(&mut rep, thorough),
+        "C08" => c07::run_c08(&mut rep, thorough),
+        "C09" => c07::run_c09(&mut rep, thorough),
         "C10" => c10::run(&mut rep, thorough),
+        "C11" => c11::run(&mut rep, thorough),
         _ => return None,
     }
     Some(rep)
